@@ -21,7 +21,7 @@ ASSUMPTIONS = [
 ]
 PRODS = ["prod:" + k for k in ("and", "or", "not", "eq", "ge", "le", "approx", "present", "sub", "ext")]
 NEEDED = PRODS + ["deco:after-lparen", "deco:after-op", "deco:between-siblings", "deco:before-rparen", "deco:leading", "deco:trailing",
-                  "raw-control", "raw-utfmb", "raw-space", "esc-upper", "esc-lower", "empty-value", "dn-literal-case",
+                  "raw-control", "raw-utfmb", "raw-space", "esc-upper", "esc-lower", "esc-mixed-case-pair", "empty-value", "dn-literal-case",
                   "ext:attr", "ext:attr+dn", "ext:attr+rule", "ext:attr+dn+rule", "ext:+rule", "ext:+dn+rule", "sub:i--", "sub:-a-", "sub:--f", "sub:iaf"]
 
 
@@ -31,6 +31,8 @@ def shards(tier):
 
 def gates(c, tier):
     out = [f"never used: {k}" for k in NEEDED if c.get(k, 0) == 0]
+    if c.get("part:deep-sentences", 0) == 0:
+        out.append("no deeply nested sentence")
     if c.get("malformed-inputs-interleaved", 0) == 0:
         out.append("no malformed input interleaved")
     if c.get("oracle_disagreement", 0):
@@ -108,10 +110,53 @@ def run_shard(ctx: Ctx, acc: Acc):
                     acc.count("malformed-inputs-interleaved")
         for key, what in check_text(text, tree):
             acc.violation(key, what, {"text": text})
+    deep_sentences(ctx, acc)
+
+
+def deep_sentences(ctx, acc):
+    """Sentences nested far deeper than the random part reaches (RFC 4515 puts no bound on nesting; the library parses
+    recursively and documents its limit as Python's recursion limit - several hundred levels are accepted)."""
+    depths = [129, 160, 250, 350, 420]
+    for di, d in enumerate(depths):
+        for oi, op in enumerate("&|!"):
+            if (di * 3 + oi) % ctx.nshards != ctx.shard:
+                continue
+            r = ctx.rng("deep", d, op)
+            leaf = gf.g_text_filter(r, 0, hostile=True, dn_rule_rate=0)
+            leaf_text = gf.Render(r, decoration=False).sentence(leaf)
+            text = ("(" + op) * d + leaf_text + ")" * d
+            acc.case()
+            acc.count("part:deep-sentences")
+            acc.nontrivial("deep", d, op, leaf_text)
+            try:
+                with cpu_limit(10):
+                    got = sl.LDAPFilter.from_string(text)
+            except CpuTimeout:
+                acc.violation("parse-cpu-timeout:deep", f"{d}-level sentence not parsed within 10 CPU-seconds", {"text": text, "deep": True})
+                continue
+            except Exception as e:
+                acc.violation(f"sentence-rejected:deep:{type(e).__name__}", f"RFC 4515 sentence with {d} nested {op!r} rejected: {type(e).__name__}: {str(e)[:100]}", {"text": text, "deep": True})
+                continue
+            # walk down iteratively (no recursion in the harness)
+            node, ok = got, True
+            for _ in range(d):
+                cls = {"&": sl.FilterAnd, "|": sl.FilterOr, "!": sl.FilterNot}[op]
+                if type(node) is not cls or (op != "!" and len(node.filters) != 1):
+                    ok = False
+                    break
+                node = node.filter if op == "!" else node.filters[0]
+            if not ok or av.a_filter(node) != leaf:
+                acc.violation("sentence-misparsed:deep", f"{d} nested {op!r} around {leaf_text[:60]!r}: wrong tree", {"text": text, "deep": True})
 
 
 def replay(w):
     text = w["text"]
+    if w.get("deep"):
+        try:
+            sl.LDAPFilter.from_string(text)
+            return []
+        except Exception as e:
+            return [(f"sentence-rejected:deep:{type(e).__name__}", str(e)[:100])]
     try:
         tree = rfc4515.parse(text, decoration=True, strict_values=True)
     except rfc4515.FilterRefError:
